@@ -1,4 +1,624 @@
-/- Helper lemmas for LC/Props/C04.lean. TO BE PROVED (no sorry may remain). -/
+/-
+Helper lemmas for LC/Props/C04.lean (sorting is a function of the multiset, the comparators
+are strict total orders, the match result does not depend on map iteration order, dictionary
+round trip).  Core Lean only.
+-/
 import LC.Model.V2Match
+
+namespace LC.V2Match.Ord
+open LC.V2Match
+
+/-! ### insertion sort -/
+
+theorem insertSorted_perm {α : Type} (less : α → α → Bool) (x : α) (l : List α) :
+    (insertSorted less x l).Perm (x :: l) := by
+  induction l with
+  | nil => exact List.Perm.refl _
+  | cons y ys ih =>
+    simp only [insertSorted]
+    split
+    · exact List.Perm.refl _
+    · exact (List.Perm.cons y ih).trans (List.Perm.swap x y ys)
+
+theorem sortBy_nil {α : Type} (less : α → α → Bool) : sortBy less [] = [] := rfl
+
+theorem sortBy_cons {α : Type} (less : α → α → Bool) (x : α) (xs : List α) :
+    sortBy less (x :: xs) = insertSorted less x (sortBy less xs) := rfl
+
+theorem sortBy_perm {α : Type} (less : α → α → Bool) (l : List α) : (sortBy less l).Perm l := by
+  induction l with
+  | nil => exact List.Perm.refl _
+  | cons x xs ih =>
+    rw [sortBy_cons]
+    exact (insertSorted_perm less x _).trans (List.Perm.cons x ih)
+
+/-- insertion keeps sortedness; only irreflexivity and transitivity are needed -/
+theorem insertSorted_sorted {α : Type} (less : α → α → Bool)
+    (hi : ∀ a, less a a = false)
+    (ht : ∀ a b c, less a b = true → less b c = true → less a c = true)
+    (x : α) (l : List α) (hs : l.Pairwise (fun a b => less b a = false)) :
+    (insertSorted less x l).Pairwise (fun a b => less b a = false) := by
+  induction l with
+  | nil => simp [insertSorted]
+  | cons y ys ih =>
+    rw [List.pairwise_cons] at hs
+    simp only [insertSorted]
+    by_cases hxy : less x y = true
+    · rw [if_pos hxy]
+      refine List.pairwise_cons.2 ⟨?_, List.pairwise_cons.2 hs⟩
+      intro b hb
+      rcases List.mem_cons.1 hb with hby | hb
+      · subst hby
+        cases h : less b x with
+        | false => rfl
+        | true =>
+          have := ht _ _ _ hxy h
+          rw [hi] at this; cases this
+      · cases h : less b x with
+        | false => rfl
+        | true =>
+          have := ht _ _ _ h hxy
+          rw [hs.1 b hb] at this; cases this
+    · rw [if_neg hxy]
+      refine List.pairwise_cons.2 ⟨?_, ih hs.2⟩
+      intro b hb
+      have hb' := (insertSorted_perm less x ys).subset hb
+      rcases List.mem_cons.1 hb' with hbx | hb
+      · subst hbx
+        simpa using hxy
+      · exact hs.1 b hb
+
+theorem sortBy_sorted {α : Type} (less : α → α → Bool)
+    (hi : ∀ a, less a a = false)
+    (ht : ∀ a b c, less a b = true → less b c = true → less a c = true)
+    (l : List α) : (sortBy less l).Pairwise (fun a b => less b a = false) := by
+  induction l with
+  | nil => exact List.Pairwise.nil
+  | cons x xs ih =>
+    rw [sortBy_cons]
+    exact insertSorted_sorted less hi ht x _ ih
+
+/-- uniqueness of the sorted permutation, trichotomy only required on the elements present -/
+theorem sorted_perm_unique_rel {α : Type} (less : α → α → Bool) (l₁ l₂ : List α) (hp : l₁.Perm l₂)
+    (tri : ∀ a ∈ l₁, ∀ b ∈ l₁, less a b = false → less b a = false → a = b)
+    (h₁ : l₁.Pairwise (fun a b => less b a = false))
+    (h₂ : l₂.Pairwise (fun a b => less b a = false)) : l₁ = l₂ := by
+  refine List.Perm.eq_of_pairwise (le := fun a b => less b a = false) ?_ h₁ h₂ hp
+  intro a b ha hb hab hba
+  exact tri a ha b (hp.symm.subset hb) hba hab
+
+theorem sort_order_irrelevant_rel {α : Type} (less : α → α → Bool)
+    (hi : ∀ a, less a a = false)
+    (ht : ∀ a b c, less a b = true → less b c = true → less a c = true)
+    (l₁ l₂ : List α) (hp : l₁.Perm l₂)
+    (tri : ∀ a ∈ l₁, ∀ b ∈ l₁, less a b = false → less b a = false → a = b) :
+    sortBy less l₁ = sortBy less l₂ := by
+  refine sorted_perm_unique_rel less _ _
+    (((sortBy_perm less l₁).trans hp).trans (sortBy_perm less l₂).symm) ?_
+    (sortBy_sorted less hi ht l₁) (sortBy_sorted less hi ht l₂)
+  intro a ha b hb
+  exact tri a ((sortBy_perm less l₁).subset ha) b ((sortBy_perm less l₁).subset hb)
+
+/-! ### lexicographic combination of comparators -/
+
+/-- `less` is irreflexive and transitive, and two elements it does not order are `E`-related -/
+structure LexOK {α : Type} (less : α → α → Bool) (E : α → α → Prop) : Prop where
+  irrefl : ∀ a, less a a = false
+  trans : ∀ a b c, less a b = true → less b c = true → less a c = true
+  tri : ∀ a b, less a b = false → less b a = false → E a b
+
+theorem lexOK_base {α : Type} : LexOK (fun (_ _ : α) => false) (fun _ _ => True) :=
+  ⟨fun _ => rfl, fun _ _ _ h => (by cases h), fun _ _ _ _ => trivial⟩
+
+/-- one more key in front: compare `f a` with `f b` by the strict total order `lb`, fall back to
+`rest` when they are equal -/
+theorem lex_step {α β : Type} (f : α → β) (lb : β → β → Bool) (hb : StrictTotal lb)
+    (rest less : α → α → Bool) (E : α → α → Prop)
+    (h1 : ∀ a b, f a ≠ f b → less a b = lb (f a) (f b))
+    (h2 : ∀ a b, f a = f b → less a b = rest a b)
+    (hr : LexOK rest E) : LexOK less (fun a b => f a = f b ∧ E a b) where
+  irrefl a := by rw [h2 a a rfl]; exact hr.irrefl a
+  trans a b c hab hbc := by
+    by_cases e1 : f a = f b
+    · by_cases e2 : f b = f c
+      · rw [h2 _ _ e1] at hab; rw [h2 _ _ e2] at hbc; rw [h2 _ _ (e1.trans e2)]
+        exact hr.trans _ _ _ hab hbc
+      · have e3 : f a ≠ f c := e1 ▸ e2
+        rw [h1 _ _ e2] at hbc; rw [h1 _ _ e3, e1]; exact hbc
+    · by_cases e2 : f b = f c
+      · have e3 : f a ≠ f c := e2 ▸ e1
+        rw [h1 _ _ e1] at hab; rw [h1 _ _ e3, ← e2]; exact hab
+      · rw [h1 _ _ e1] at hab; rw [h1 _ _ e2] at hbc
+        have hac := hb.trans _ _ _ hab hbc
+        have e3 : f a ≠ f c := by
+          intro e
+          rw [e, hb.irrefl] at hac; cases hac
+        rw [h1 _ _ e3]; exact hac
+  tri a b hab hba := by
+    by_cases e : f a = f b
+    · rw [h2 _ _ e] at hab; rw [h2 _ _ e.symm] at hba; exact ⟨e, hr.tri _ _ hab hba⟩
+    · rw [h1 _ _ e] at hab; rw [h1 _ _ (Ne.symm e)] at hba
+      exact absurd (hb.tri _ _ hab hba) e
+
+theorem intLt_total : StrictTotal (fun (x y : Int) => decide (x < y)) :=
+  ⟨by intro a; simp, by intro a b c; simp; omega, by intro a b; simp; omega⟩
+
+theorem intGt_total : StrictTotal (fun (x y : Int) => decide (x > y)) :=
+  ⟨by intro a; simp, by intro a b c; simp; omega, by intro a b; simp; omega⟩
+
+theorem natLt_total : StrictTotal (fun (x y : Nat) => decide (x < y)) :=
+  ⟨by intro a; simp, by intro a b c; simp; omega, by intro a b; simp; omega⟩
+
+theorem strLt_total : StrictTotal (fun (x y : String) => decide (x < y)) :=
+  ⟨by intro a; simp,
+   by intro a b c; simp only [decide_eq_true_eq]; exact String.lt_trans,
+   by
+    intro a b
+    simp only [decide_eq_false_iff_not, String.not_lt]
+    exact fun h1 h2 => String.le_antisymm h2 h1⟩
+
+theorem gt_total {C : Type} (N : NumEnv C) (laws : NumLaws N) : StrictTotal N.gt :=
+  ⟨laws.gt_irrefl, laws.gt_trans, laws.gt_tri⟩
+
+/-! ### `Matches.Less` -/
+
+section MatchLess
+variable {C : Type}
+
+def l7 (a b : Match C) : Bool := decide (a.variant < b.variant)
+def l6 (a b : Match C) : Bool := if a.name ≠ b.name then decide (a.name < b.name) else l7 a b
+def l5 (a b : Match C) : Bool :=
+  if a.matchType ≠ b.matchType then decide (a.matchType < b.matchType) else l6 a b
+def l4 (a b : Match C) : Bool :=
+  if a.endLine ≠ b.endLine then decide (a.endLine < b.endLine) else l5 a b
+def l3 (a b : Match C) : Bool :=
+  if a.startLine ≠ b.startLine then decide (a.startLine < b.startLine) else l4 a b
+def l2 (a b : Match C) : Bool :=
+  if a.endTok ≠ b.endTok then decide (a.endTok > b.endTok) else l3 a b
+def l1 (a b : Match C) : Bool :=
+  if a.startTok ≠ b.startTok then decide (a.startTok < b.startTok) else l2 a b
+
+theorem matchLess_eq (N : NumEnv C) (a b : Match C) :
+    matchLess N a b =
+      if N.gt a.conf b.conf = true ∨ N.gt b.conf a.conf = true then N.gt a.conf b.conf else l1 a b := rfl
+
+abbrev E7 (a b : Match C) : Prop := a.variant = b.variant ∧ True
+abbrev E6 (a b : Match C) : Prop := a.name = b.name ∧ E7 a b
+abbrev E5 (a b : Match C) : Prop := a.matchType = b.matchType ∧ E6 a b
+abbrev E4 (a b : Match C) : Prop := a.endLine = b.endLine ∧ E5 a b
+abbrev E3 (a b : Match C) : Prop := a.startLine = b.startLine ∧ E4 a b
+abbrev E2 (a b : Match C) : Prop := a.endTok = b.endTok ∧ E3 a b
+abbrev E1 (a b : Match C) : Prop := a.startTok = b.startTok ∧ E2 a b
+abbrev E0 (a b : Match C) : Prop := a.conf = b.conf ∧ E1 a b
+
+theorem l7_ok : LexOK (l7 (C := C)) E7 :=
+  lex_step (fun a => a.variant) _ strLt_total (fun _ _ => false) l7 _
+    (fun _ _ _ => rfl)
+    (fun a b h => by
+      show decide (a.variant < b.variant) = false
+      rw [h]; simp)
+    lexOK_base
+
+theorem l6_ok : LexOK (l6 (C := C)) E6 :=
+  lex_step (fun a => a.name) _ strLt_total l7 l6 _
+    (fun a b h => by simp [l6, h]) (fun a b h => by simp [l6, h]) l7_ok
+
+theorem l5_ok : LexOK (l5 (C := C)) E5 :=
+  lex_step (fun a => a.matchType) _ strLt_total l6 l5 _
+    (fun a b h => by simp [l5, h]) (fun a b h => by simp [l5, h]) l6_ok
+
+theorem l4_ok : LexOK (l4 (C := C)) E4 :=
+  lex_step (fun a => a.endLine) _ natLt_total l5 l4 _
+    (fun a b h => by simp [l4, h]) (fun a b h => by simp [l4, h]) l5_ok
+
+theorem l3_ok : LexOK (l3 (C := C)) E3 :=
+  lex_step (fun a => a.startLine) _ natLt_total l4 l3 _
+    (fun a b h => by simp [l3, h]) (fun a b h => by simp [l3, h]) l4_ok
+
+theorem l2_ok : LexOK (l2 (C := C)) E2 :=
+  lex_step (fun a => a.endTok) _ intGt_total l3 l2 _
+    (fun a b h => by simp [l2, h]) (fun a b h => by simp [l2, h]) l3_ok
+
+theorem l1_ok : LexOK (l1 (C := C)) E1 :=
+  lex_step (fun a => a.startTok) _ intLt_total l2 l1 _
+    (fun a b h => by simp [l1, h]) (fun a b h => by simp [l1, h]) l2_ok
+
+theorem matchLess_ok (N : NumEnv C) (laws : NumLaws N) : LexOK (matchLess N) E0 :=
+  lex_step (fun a => a.conf) N.gt (gt_total N laws) l1 (matchLess N) _
+    (fun a b h => by
+      have hc : N.gt a.conf b.conf = true ∨ N.gt b.conf a.conf = true := by
+        cases h1 : N.gt a.conf b.conf with
+        | true => exact Or.inl rfl
+        | false =>
+          cases h2 : N.gt b.conf a.conf with
+          | true => exact Or.inr rfl
+          | false => exact absurd (laws.gt_tri _ _ h1 h2) h
+      rw [matchLess_eq, if_pos hc])
+    (fun a b h => by
+      have hc : ¬ (N.gt a.conf b.conf = true ∨ N.gt b.conf a.conf = true) := by
+        rw [h, laws.gt_irrefl]; simp
+      rw [matchLess_eq, if_neg hc])
+    l1_ok
+
+theorem matchLess_total (N : NumEnv C) (laws : NumLaws N) : StrictTotal (matchLess N) where
+  irrefl := (matchLess_ok N laws).irrefl
+  trans := (matchLess_ok N laws).trans
+  tri a b h1 h2 := by
+    have h := (matchLess_ok N laws).tri a b h1 h2
+    cases a; cases b
+    simp only [Match.mk.injEq]
+    obtain ⟨e1, e2, e3, e4, e5, e6, e7, e8, _⟩ := h
+    exact ⟨e7, e1, e6, e8, e4, e5, e2, e3⟩
+
+end MatchLess
+
+/-! ### `matchRanges.Less` -/
+
+abbrev F3 (a b : MR) : Prop := a.srcStart = b.srcStart ∧ True
+abbrev F2 (a b : MR) : Prop := a.tgtStart = b.tgtStart ∧ F3 a b
+abbrev F1 (a b : MR) : Prop := a.claimed = b.claimed ∧ F2 a b
+
+def m3 (a b : MR) : Bool := decide (a.srcStart < b.srcStart)
+def m2 (a b : MR) : Bool := if a.tgtStart ≠ b.tgtStart then decide (a.tgtStart < b.tgtStart) else m3 a b
+
+theorem mrLess_eq (a b : MR) :
+    mrLess a b = if a.claimed ≠ b.claimed then decide (a.claimed > b.claimed) else m2 a b := rfl
+
+theorem m3_ok : LexOK m3 F3 :=
+  lex_step (fun a => a.srcStart) _ intLt_total (fun _ _ => false) m3 _
+    (fun _ _ _ => rfl)
+    (fun a b h => by
+      show decide (a.srcStart < b.srcStart) = false
+      rw [h]; simp)
+    lexOK_base
+
+theorem m2_ok : LexOK m2 F2 :=
+  lex_step (fun a => a.tgtStart) _ intLt_total m3 m2 _
+    (fun a b h => by simp [m2, h]) (fun a b h => by simp [m2, h]) m3_ok
+
+theorem mrLess_ok : LexOK mrLess F1 :=
+  lex_step (fun a => a.claimed) _ intGt_total m2 mrLess _
+    (fun a b h => by rw [mrLess_eq, if_pos h])
+    (fun a b h => by rw [mrLess_eq, if_neg (not_not_intro h)]) m2_ok
+
+/-! ### the dictionary -/
+
+theorem getIndex_ne_zero_iff (d : Dict) (w : List Nat) : d.getIndex w ≠ 0 ↔ w ∈ d.words := by
+  unfold Dict.getIndex
+  cases h : d.words.idxOf? w with
+  | none => simp [List.idxOf?_eq_none_iff.1 h]
+  | some i =>
+    have hm : w ∈ d.words := by
+      have := List.isSome_idxOf? (l := d.words) (a := w)
+      rw [h] at this; simpa using this
+    simp [hm]
+
+theorem getIndex_eq_zero_iff (d : Dict) (w : List Nat) : d.getIndex w = 0 ↔ w ∉ d.words := by
+  rw [← getIndex_ne_zero_iff]; simp
+
+theorem getWord_getIndex (d : Dict) (w : List Nat) (hm : w ∈ d.words) :
+    d.getWord (d.getIndex w) = some w := by
+  unfold Dict.getIndex
+  cases h : d.words.idxOf? w with
+  | none => exact absurd hm (List.idxOf?_eq_none_iff.1 h)
+  | some i =>
+    obtain ⟨hi, hw, _⟩ := List.idxOf?_eq_some_iff.1 h
+    simp [Dict.getWord, hi, hw]
+
+theorem getIndex_of_getWord (d : Dict) (hn : d.words.Nodup) (w : List Nat) (i : Nat)
+    (h : d.getWord i = some w) : d.getIndex w = i := by
+  unfold Dict.getWord at h
+  by_cases hi : i = 0
+  · simp [hi] at h
+  · rw [if_neg hi] at h
+    obtain ⟨hlt, hw⟩ := List.getElem?_eq_some_iff.1 h
+    have hidx : d.words.idxOf? w = some (i - 1) := by
+      refine List.idxOf?_eq_some_iff.2 ⟨hlt, hw, ?_⟩
+      intro j hj hjw
+      have hp := List.pairwise_iff_getElem.1 hn j (i - 1) (Nat.lt_trans hj hlt) hlt hj
+      exact hp (hjw.trans hw.symm)
+    unfold Dict.getIndex
+    rw [hidx]; simp; omega
+
+theorem add_words (d : Dict) (v : List Nat) :
+    (d.add v).1.words = if v ∈ d.words then d.words else d.words ++ [v] := by
+  unfold Dict.add
+  by_cases hv : v ∈ d.words
+  · rw [if_pos ((getIndex_ne_zero_iff d v).2 hv), if_pos hv]
+  · rw [if_neg (fun h => hv ((getIndex_ne_zero_iff d v).1 h)), if_neg hv]
+
+theorem addAll_cons (d : Dict) (v : List Nat) (ws : List (List Nat)) :
+    d.addAll (v :: ws) = (d.add v).1.addAll ws := rfl
+
+theorem addAll_inv (ws : List (List Nat)) (d : Dict) (hn : d.words.Nodup) :
+    (d.addAll ws).words.Nodup ∧ ∀ w, w ∈ (d.addAll ws).words ↔ w ∈ d.words ∨ w ∈ ws := by
+  induction ws generalizing d with
+  | nil => exact ⟨hn, fun w => by simp [Dict.addAll]⟩
+  | cons v vs ih =>
+    rw [addAll_cons]
+    have hn' : (d.add v).1.words.Nodup := by
+      rw [add_words]
+      by_cases hv : v ∈ d.words
+      · rw [if_pos hv]; exact hn
+      · rw [if_neg hv]
+        refine List.nodup_append.2 ⟨hn, by simp, ?_⟩
+        intro a ha b hb
+        rw [List.mem_singleton] at hb
+        intro e; subst e; subst hb; exact hv ha
+    obtain ⟨h1, h2⟩ := ih _ hn'
+    refine ⟨h1, fun w => ?_⟩
+    rw [h2 w, add_words]
+    by_cases hv : v ∈ d.words
+    · rw [if_pos hv]
+      constructor
+      · rintro (h | h)
+        · exact Or.inl h
+        · exact Or.inr (List.mem_cons_of_mem _ h)
+      · rintro (h | h)
+        · exact Or.inl h
+        · rcases List.mem_cons.1 h with e | h
+          · exact Or.inl (e ▸ hv)
+          · exact Or.inr h
+    · rw [if_neg hv]
+      simp only [List.mem_append, List.mem_cons, List.not_mem_nil, or_false]
+      constructor
+      · rintro ((h | h) | h)
+        · exact Or.inl h
+        · exact Or.inr (Or.inl h)
+        · exact Or.inr (Or.inr h)
+      · rintro (h | h | h)
+        · exact Or.inl (Or.inl h)
+        · exact Or.inl (Or.inr h)
+        · exact Or.inr h
+
+theorem getIndex_append_of_mem (ws : List (List Nat)) (v w : List Nat) (hm : w ∈ ws) :
+    (Dict.mk (ws ++ [v])).getIndex w = (Dict.mk ws).getIndex w := by
+  unfold Dict.getIndex
+  show (match (ws ++ [v]).idxOf? w with | some i => i + 1 | none => 0) =
+    (match ws.idxOf? w with | some i => i + 1 | none => 0)
+  have : (ws ++ [v]).idxOf? w = ws.idxOf? w := by
+    cases h : ws.idxOf? w with
+    | none => exact absurd hm (List.idxOf?_eq_none_iff.1 h)
+    | some i =>
+      have h' : List.findIdx? (· == w) ws = some i := h
+      simp only [List.idxOf?, List.findIdx?_append, h']
+      rfl
+  rw [this]
+
+/-! ### `match` and the iteration order of the corpus -/
+
+theorem foldlM_error_inv {ε β γ : Type} (P : ε → Prop) (f : β → γ → Except ε β)
+    (h : ∀ acc x e, f acc x = .error e → P e) (l : List γ) (init : β) (e : ε)
+    (he : l.foldlM f init = .error e) : P e := by
+  induction l generalizing init with
+  | nil => simp [List.foldlM, pure, Except.pure] at he
+  | cons x xs ih =>
+    rw [List.foldlM_cons] at he
+    cases hx : f init x with
+    | error e' =>
+      rw [hx] at he
+      have : e' = e := by simpa [bind, Except.bind] using he
+      exact this ▸ h _ _ _ hx
+    | ok b =>
+      rw [hx] at he
+      exact ih b (by simpa [bind, Except.bind] using he)
+
+/-- the candidates of a document, `[]` if it fails -/
+def getOk {ε β : Type} (r : Except ε (List β)) : List β :=
+  match r with
+  | .ok ms => ms
+  | .error _ => []
+
+theorem foldlM_append_ok {ε β γ : Type} (g : γ → Except ε (List β))
+    (f : List β → γ → Except ε (List β))
+    (hok : ∀ acc p ms, g p = .ok ms → f acc p = .ok (acc ++ ms))
+    (herr : ∀ acc p e, g p = .error e → f acc p = .error e)
+    (l : List γ) (init r : List β) (h : l.foldlM f init = .ok r) :
+    r = init ++ l.flatMap (fun p => getOk (g p)) := by
+  induction l generalizing init with
+  | nil =>
+    have : init = r := by simpa [List.foldlM, pure, Except.pure] using h
+    simp [this]
+  | cons x xs ih =>
+    rw [List.foldlM_cons] at h
+    cases hx : g x with
+    | error e =>
+      rw [herr init x e hx] at h
+      simp [bind, Except.bind] at h
+    | ok ms =>
+      rw [hok init x ms hx] at h
+      have h' : xs.foldlM f (init ++ ms) = .ok r := by simpa [bind, Except.bind] using h
+      rw [ih _ h', List.flatMap_cons, hx]
+      simp [getOk]
+
+section MatchModel
+variable {C : Type} (N : NumEnv C) (crc : Text → Nat) (wordOf : Nat → Text)
+  (isDigitRune : Nat → Bool) (decode : Text → List Nat) (induced : List (Text × List Text))
+  (diffOf : KDoc → Nat → Nat → Option (List (LC.Score.Diff Nat))) (cntT : Nat → Nat)
+  (target : Array IdTok) (crs : List Nat)
+
+def firstPass (docs : List PDoc) : List PDoc :=
+  docs.filter (fun p =>
+    let s := tokenSimWith cntT p.cnt p.ks
+    N.simGE s.1 s.2)
+
+def crMs : List (Match C) := crs.map (fun l =>
+  { name := "Copyright", conf := N.confOne, matchType := "Copyright", variant := "",
+    startLine := l, endLine := l, startTok := 0, endTok := 0 })
+
+def candsOf (p : PDoc) : Except (Outcome C) (List (Match C)) :=
+  let tids := target.toList.map (·.id)
+  let qt := effQ N.q tids.length
+  let th := hashes crc wordOf qt tids
+  docCandidates N wordOf isDigitRune decode induced diffOf target th qt p
+
+def step (acc : List (Match C)) (p : PDoc) : Except (Outcome C) (List (Match C)) :=
+  match candsOf N crc wordOf isDigitRune decode induced diffOf target p with
+  | Except.ok ms => Except.ok (acc ++ ms)
+  | Except.error e => Except.error e
+
+def post (cands : List (Match C)) : Outcome C :=
+  let sorted := sortBy (matchLess N) cands
+  let retain := retainPass N sorted
+  let out := (sorted.zip retain).filterMap (fun (p : Match C × Bool) => if p.2 then some p.1 else none)
+  match target.back? with
+  | none => .ok { ms := out, totalInputLines := 0 }
+  | some t => .ok { ms := out, totalInputLines := t.line }
+
+theorem matchModel_eq (docs : List PDoc) :
+    matchModel N crc wordOf isDigitRune decode induced diffOf cntT docs target crs =
+      if firstPass N cntT docs = [] then .ok { ms := [], totalInputLines := 0 }
+      else
+        match (firstPass N cntT docs).foldlM
+            (step N crc wordOf isDigitRune decode induced diffOf target) (crMs N crs) with
+        | Except.error e => e
+        | Except.ok cands => post N target cands := rfl
+
+/-- a failing document reports a panic or a missing oracle entry, never a result -/
+theorem candsOf_error (p : PDoc) (e : Outcome C)
+    (h : candsOf N crc wordOf isDigitRune decode induced diffOf target p = .error e) :
+    ∀ r, e ≠ .ok r := by
+  unfold candsOf docCandidates at h
+  simp only at h
+  split at h
+  · cases h; intro r hr; cases hr
+  · refine foldlM_error_inv (fun e => ∀ r, e ≠ Outcome.ok r) _ ?_ _ _ e h
+    intro acc m e' he'
+    split at he'
+    · cases he'; intro r hr; cases hr
+    · split at he'
+      · split at he'
+        · cases he'
+        · cases he'; intro r hr; cases hr
+      · cases he'
+
+theorem step_error (acc : List (Match C)) (p : PDoc) (e : Outcome C)
+    (h : step N crc wordOf isDigitRune decode induced diffOf target acc p = .error e) :
+    ∀ r, e ≠ .ok r := by
+  unfold step at h
+  split at h
+  · cases h
+  · next e' he' =>
+    cases h
+    exact candsOf_error N crc wordOf isDigitRune decode induced diffOf target p _ he'
+
+theorem post_congr (c₁ c₂ : List (Match C))
+    (h : sortBy (matchLess N) c₁ = sortBy (matchLess N) c₂) : post N target c₁ = post N target c₂ := by
+  simp only [post, h]
+
+theorem fold_ok (l : List PDoc) (init r : List (Match C))
+    (h : l.foldlM (step N crc wordOf isDigitRune decode induced diffOf target) init = .ok r) :
+    r = init ++ l.flatMap (fun p =>
+      getOk (candsOf N crc wordOf isDigitRune decode induced diffOf target p)) := by
+  refine foldlM_append_ok _ _ ?_ ?_ l init r h
+  · intro acc p ms hg
+    simp only [step, hg]
+  · intro acc p e hg
+    simp only [step, hg]
+
+end MatchModel
+
+end LC.V2Match.Ord
+
 namespace LC.V2Match
+
+theorem sortBy_perm' {α : Type} (less : α → α → Bool) (l : List α) : (sortBy less l).Perm l :=
+  Ord.sortBy_perm less l
+
+theorem sortBy_sorted' {α : Type} (less : α → α → Bool) (tot : StrictTotal less) (l : List α) :
+    (sortBy less l).Pairwise (fun a b => less b a = false) :=
+  Ord.sortBy_sorted less tot.irrefl tot.trans l
+
+theorem sort_order_irrelevant' {α : Type} (less : α → α → Bool) (tot : StrictTotal less)
+    (l₁ l₂ : List α) (hp : l₁.Perm l₂) : sortBy less l₁ = sortBy less l₂ :=
+  Ord.sort_order_irrelevant_rel less tot.irrefl tot.trans l₁ l₂ hp
+    (fun a _ b _ => tot.tri a b)
+
+theorem sorted_perm_unique' {α : Type} (less : α → α → Bool) (tot : StrictTotal less)
+    (l₁ l₂ : List α) (hp : l₁.Perm l₂)
+    (h₁ : l₁.Pairwise (fun a b => less b a = false)) (h₂ : l₂.Pairwise (fun a b => less b a = false)) :
+    l₁ = l₂ :=
+  Ord.sorted_perm_unique_rel less l₁ l₂ hp (fun a _ b _ => tot.tri a b) h₁ h₂
+
+theorem matchLess_total' {C : Type} (N : NumEnv C) (laws : NumLaws N) : StrictTotal (matchLess N) :=
+  Ord.matchLess_total N laws
+
+theorem mr_sort_order_irrelevant' (l₁ l₂ : List MR) (hp : l₁.Perm l₂)
+    (hk : ∀ a ∈ l₁, ∀ b ∈ l₁, a.tgtStart = b.tgtStart → a.srcStart = b.srcStart →
+      a.claimed = b.claimed → a = b) :
+    sortBy mrLess l₁ = sortBy mrLess l₂ :=
+  Ord.sort_order_irrelevant_rel mrLess Ord.mrLess_ok.irrefl Ord.mrLess_ok.trans l₁ l₂ hp
+    (fun a ha b hb h1 h2 =>
+      have h := Ord.mrLess_ok.tri a b h1 h2
+      hk a ha b hb h.2.1 h.2.2.1 h.1)
+
+theorem dict_roundtrip' (ws : List (List Nat)) (w : List Nat) (i : Nat) :
+    let d := (Dict.mk []).addAll ws
+    (w ∈ ws → d.getIndex w ≠ 0 ∧ d.getWord (d.getIndex w) = some w) ∧
+    (d.getWord i = some w → d.getIndex w = i) ∧
+    (w ∉ ws → d.getIndex w = 0) := by
+  intro d
+  obtain ⟨hn, hm⟩ := Ord.addAll_inv ws (Dict.mk []) List.nodup_nil
+  have hm' : w ∈ d.words ↔ w ∈ ws := by
+    rw [show d.words = ((Dict.mk []).addAll ws).words from rfl, hm w]; simp
+  refine ⟨fun h => ?_, fun h => ?_, fun h => ?_⟩
+  · have hw := hm'.2 h
+    exact ⟨(Ord.getIndex_ne_zero_iff d w).2 hw, Ord.getWord_getIndex d w hw⟩
+  · exact Ord.getIndex_of_getWord d hn w i h
+  · exact (Ord.getIndex_eq_zero_iff d w).2 (fun hw => h (hm'.1 hw))
+
+theorem dict_add_stable' (d : Dict) (w v : List Nat) (h : d.getIndex w ≠ 0) :
+    (d.add v).1.getIndex w = d.getIndex w := by
+  have hw := (Ord.getIndex_ne_zero_iff d w).1 h
+  unfold Dict.add
+  by_cases hv : d.getIndex v ≠ 0
+  · rw [if_pos hv]
+  · rw [if_neg hv]
+    exact Ord.getIndex_append_of_mem d.words v w hw
+
+theorem match_order_independent' {C : Type} (N : NumEnv C) (laws : NumLaws N)
+    (crc : Text → Nat) (wordOf : Nat → Text) (isDigitRune : Nat → Bool) (decode : Text → List Nat)
+    (induced : List (Text × List Text)) (diffOf : KDoc → Nat → Nat → Option (List (LC.Score.Diff Nat)))
+    (cntT : Nat → Nat) (docs₁ docs₂ : List PDoc) (hp : docs₁.Perm docs₂)
+    (target : Array IdTok) (crs : List Nat) (r₁ r₂ : Results C)
+    (h₁ : matchModel N crc wordOf isDigitRune decode induced diffOf cntT docs₁ target crs = .ok r₁)
+    (h₂ : matchModel N crc wordOf isDigitRune decode induced diffOf cntT docs₂ target crs = .ok r₂) :
+    r₁.ms = r₂.ms ∧ r₁.totalInputLines = r₂.totalInputLines := by
+  rw [Ord.matchModel_eq] at h₁ h₂
+  have hF : (Ord.firstPass N cntT docs₁).Perm (Ord.firstPass N cntT docs₂) := hp.filter _
+  by_cases e1 : Ord.firstPass N cntT docs₁ = []
+  · have e2 : Ord.firstPass N cntT docs₂ = [] := by
+      rw [e1] at hF; exact hF.nil_eq.symm
+    rw [if_pos e1] at h₁; rw [if_pos e2] at h₂
+    cases h₁; cases h₂; exact ⟨rfl, rfl⟩
+  · have e2 : Ord.firstPass N cntT docs₂ ≠ [] := fun e => e1 (by rw [e] at hF; exact hF.eq_nil)
+    rw [if_neg e1] at h₁; rw [if_neg e2] at h₂
+    cases hf1 : (Ord.firstPass N cntT docs₁).foldlM
+        (Ord.step N crc wordOf isDigitRune decode induced diffOf target) (Ord.crMs N crs) with
+    | error e =>
+      rw [hf1] at h₁
+      exact absurd h₁ (Ord.foldlM_error_inv (fun e => ∀ r, e ≠ Outcome.ok r) _
+        (Ord.step_error N crc wordOf isDigitRune decode induced diffOf target) _ _ e hf1 r₁)
+    | ok c₁ =>
+      cases hf2 : (Ord.firstPass N cntT docs₂).foldlM
+          (Ord.step N crc wordOf isDigitRune decode induced diffOf target) (Ord.crMs N crs) with
+      | error e =>
+        rw [hf2] at h₂
+        exact absurd h₂ (Ord.foldlM_error_inv (fun e => ∀ r, e ≠ Outcome.ok r) _
+          (Ord.step_error N crc wordOf isDigitRune decode induced diffOf target) _ _ e hf2 r₂)
+      | ok c₂ =>
+        rw [hf1] at h₁; rw [hf2] at h₂
+        have hc₁ := Ord.fold_ok N crc wordOf isDigitRune decode induced diffOf target _ _ _ hf1
+        have hc₂ := Ord.fold_ok N crc wordOf isDigitRune decode induced diffOf target _ _ _ hf2
+        have hperm : c₁.Perm c₂ := by
+          rw [hc₁, hc₂]
+          exact List.Perm.append_left _ (List.Perm.flatMap_right _ hF)
+        have hs := sort_order_irrelevant' (matchLess N) (matchLess_total' N laws) c₁ c₂ hperm
+        have hpost := Ord.post_congr N target c₁ c₂ hs
+        have h₁' : Ord.post N target c₁ = Outcome.ok r₁ := h₁
+        have h₂' : Ord.post N target c₂ = Outcome.ok r₂ := h₂
+        rw [hpost, h₂'] at h₁'
+        cases h₁'
+        exact ⟨rfl, rfl⟩
+
 end LC.V2Match
